@@ -3,7 +3,7 @@ import ast
 from fractions import Fraction as F
 from .. import alg
 from ..alg import Rat, C
-from ..model import AnalysisError
+from ..model import AnalysisError, stmt_text
 from ..symval import Evaluator, Tup, Obj, Mat, NoneV, NONE, Str
 from ..symcheck import Oracle, check_equal, compare_values, show, leaves
 from ..rules import where
@@ -48,6 +48,25 @@ def symbolic_sets(repo, ev):
     return T, SD
 
 
+def hp_route_rule(repo, rep, f):
+    """arc-seconds -> radians is arithmetic (q/3600 degrees).  Routing the number through HP notation (hp2dec(q/10000): "0.00SSsss" read as
+    minutes and seconds) agrees with it only while the HP fields are valid: hp2dec renders its argument with 13 decimals (q to 1e-9") and
+    rejects a seconds field of 60, so a rotation in [59.9999999995", 60") - inside the property's domain, rotations below one arc-minute -
+    raises, and from 100" up the digits are read as minutes (130" -> 1'30" = 90").  The rule: no parameter of the set reaches hp2dec."""
+    key = 'R-UNITS::geodepy/transform.py::conform7::rotation-units'
+    hits = []
+    for n in ast.walk(f.node):
+        if isinstance(n, ast.Call) and (getattr(n.func, 'id', None) or getattr(n.func, 'attr', None)) in ('hp2dec', 'hp2rad', 'hp2deca', 'hp2dec_v') and n.args:
+            if any(isinstance(x, ast.Attribute) and isinstance(x.value, ast.Name) and x.value.id == f.params[3].name for x in ast.walk(n.args[0])):
+                hits.append(n)
+    if hits:
+        rep.violated('R-UNITS', key, where(f, hits[0]), 'conform7 converts the rotations through HP notation (`%s`): hp2dec rounds to 13 decimals and rejects a seconds field of 60, so a rotation '
+                     'of 59.9999999996" (below one arc-minute, inside the domain) raises "Invalid HP Notation"; 130" would silently be read as 1\'30"' % stmt_text(hits[0])[:50],
+                     expected='radians(trans.rx / 3600)', actual=stmt_text(hits[0])[:80])
+    else:
+        rep.holds('R-UNITS', key, where(f, f.node), 'no parameter of the set is routed through HP notation; arc-seconds become radians arithmetically (formula rules)')
+
+
 def _run(repo, rep):
     alg.reset()
     from .. import symcheck as _sc
@@ -61,6 +80,7 @@ def _run(repo, rep):
     w = where(f, f.node)
     ps = [p.name for p in f.params]
     base = 'R-FORMULA::geodepy/transform.py::conform7::'
+    hp_route_rule(repo, rep, f)
     orc = Oracle(ORACLE)
     # ------------------------------------------------------------ without covariance
     ev = Evaluator(repo)
